@@ -9,6 +9,9 @@ STRINGS = [
     "C{[>][<]CC[>][<]}|gauss(80, 5)|CO",
     "{[][<]CC(C)[>]; [<][H], [>]O []}|uniform(60, 120)|",
     "N{[$][$]CC(=O)O[$][$]}|gauss(150, 10)|F",
+    # chemistry the bundled rules cannot type completely: the dedicated error must carry the partial assignment
+    "C{[>][<][Si](C)(C)O[>][<]}|gauss(150, 5)|[Si](C)(C)C",
+    "FC(F)(F){[>][<]C(F)(F)C(F)(F)[>][<]}|gauss(150, 5)|F",
 ]
 # the same chemistry written with another atom order (typing must not depend on numbering)
 EQUIVALENT = [
@@ -37,6 +40,16 @@ def check_typed(v, what, obs, key):
     elif obs[0] == "assignment-error":
         if obs[1] is None or not obs[2]:
             v.violation(f"C20:assignment-error-without-partial-assignment:{key}", f"{what}: FfAssignmentError does not carry the partial assignment / molecule: {obs}", {"what": what})
+        else:
+            if obs[4] is not None and obs[1] >= obs[4]:
+                v.violation(f"C20:assignment-error-although-total:{key}", f"{what}: assignment error but {obs[1]} of {obs[4]} atoms carry parameters", {"what": what})
+            for z, prm in obs[3]:
+                if isinstance(prm, str):
+                    v.violation(f"C20:partial-assignment-is-not-parameter-sets:{key}", f"{what}: the partial assignment of the error maps an atom (Z={z}) to {prm}", {"what": what})
+                    break
+                if abs(prm[0] - element_mass(z)) > 0.02:
+                    v.violation(f"C20:mass-of-other-element:{key}", f"{what}: partial assignment: atom with Z={z} got parameter mass {prm[0]}", {"what": what})
+                    break
     elif obs[0] == "raises":
         v.violation(f"C20:unexpected-exception:{obs[1]}:{key}", f"{what}: typing raises {obs[1]} (neither a full assignment nor the dedicated assignment error)", {"what": what})
 
@@ -48,7 +61,7 @@ def run(tier):
     seedmap = [[7, 8]] * len(strings)
     cfgs = ["default", "A", "B", "partial"]
     depth = 3 if tier == "quick" else 4
-    hs, r = H.enumerate_histories(2, 3 if tier == "quick" else 4, [1], cfgs, depth, ["parse", "type"])
+    hs, r = H.enumerate_histories(2 if tier == "thorough" else 1, len(strings), [1], cfgs, depth, ["parse", "type"])
     keys = sorted({(b["str"], b["op"], b["arg"]) for h in hs for b in h["base"] if b["op"] == "type"})
     base = H.baselines(strings, seedmap, keys)
     # (1) every baseline observation: total + element-consistent; copies of the files = defaults; partial refused
